@@ -62,7 +62,9 @@ def manager_for(case):
         finally:
             sys.stdout = so
             worlds.end()
-        if case.get("cap") is None and not case.get("cont"):
+        if (pre.get("cap"), bool(pre.get("cont"))) == (case.get("cap"), bool(case.get("cont"))) and pre.get("flow", flow) != flow:
+            pass  # only the design call is repeated (other flow specification), nothing else is touched in between
+        elif case.get("cap") is None and not case.get("cont"):
             m.set_simulation_parameters(num_months=24, max_eft=mxa, min_eft=mna, max_height=HMAX, min_height=HMIN)  # defaults, as a user would
         else:
             m.set_simulation_parameters(num_months=24, max_eft=mxa, min_eft=mna, max_height=HMAX, min_height=HMIN, max_boreholes=case.get("cap"),
